@@ -4,7 +4,8 @@
 EXTENDS PathUtil, Json, CSV, IOUtils, TLC
 CONSTANTS MaxComps
 VARIABLES comps
-CompChoices == { <<97>>, <<98, 98>>, DotDot, <<99, 46>>, <<46, 46, 120>>, <<120, 46, 46>> }
+CompChoices == { <<97>>, <<98, 98>>, DotDot, <<99, 46>>, <<46, 46, 120>>, <<120, 46, 46>>,
+                 <<99, 111, 110, 102, 105, 103, 117, 114, 97, 116, 105, 111, 110>>, <<86, 111, 105, 99, 101, 80, 97, 114, 49>> }   \* "configuration", "VoicePar1": longer than what gets removed to their right
 Init == comps = <<>>
 Next == Len(comps) < MaxComps /\ \E c \in CompChoices : comps' = Append(comps, c)
 Laws == /\ \A i \in 1..Len(Collapse(comps)) : Collapse(comps)[i] # DotDot        \* no '..' survives
